@@ -11,14 +11,15 @@ from .lib.mir import AnchorLost
 CONFIGS_QUICK = ["A"]
 CONFIGS_THOROUGH = ["A", "R"]
 TECHNIQUE = "order-parity rule over the container disciplines (push/pop sites) of the multipart parser and its deserializers, extent pairing of the content slice with the verified delimiter CRLF, decision tables of the field deserializer, literal table of the part headers (built MIR)"
-LEVEL_TEXT = ("Decides clauses C10-a..e: the parser appends parts in submission order and every later stage takes elements either first-in-first-out or "
-              "last-in-first-out; the number of last-in-first-out stages between the parse and the delivery of the files of one name is even (today two: "
-              "Multipart::next pops the part list, the file sequence pops the group), and no stage reverses, sorts or removes from the front; the content of a "
-              "part is the bytes before the next delimiter minus exactly the length of the CRLF constant, the removed bytes are compared with that constant "
-              "on the success path, and the delimiter itself is consumed next; a file part with empty filename and empty content is delivered as an empty "
-              "file list (both tests, nothing else); each deserialize_* method of the field deserializer serves its own kind and answers an error for the "
-              "other kind (text asked as file/sequence, files asked as text, several files asked as one); the part-header names and the Content-Disposition "
-              "literals are the RFC 7578 ones, names compared case-insensitively. Decides these clauses, not byte-exact decoding for all forms.")
+LEVEL_TEXT = ('Decides clauses C10-a..e: the parser appends parts in submission order and every later stage takes elements either first-in-first-out or last-in-'
+              'first-out; the number of last-in-first-out stages between the parse and the delivery of the files of one name is even (today two: Multipart::next pops'
+              ' the part list, the file sequence pops the group), and no stage reverses, sorts or removes from the front; the content of a part is the bytes before '
+              'the next delimiter minus exactly the length of the CRLF constant, the removed bytes are compared with that constant on the success path, and the '
+              'delimiter itself is consumed next; a file part with empty filename and empty content is delivered as an empty file list (both tests, nothing else); '
+              'each deserialize_* method of the field deserializer serves its own kind and answers an error for the other kind (text asked as file/sequence, files '
+              'asked as text, several files asked as one); the part-header names and the Content-Disposition literals are the RFC 7578 ones, names compared case-'
+              "insensitively; the name, filename and media type handed to a part are defined (or reset) inside the iteration of the part loop that reads that part's "
+              'headers, so no value carries over from an earlier part. Decides these clauses, not byte-exact decoding for all forms.')
 
 MP = r"^ohkami_lib::serde_multipart::parse::"
 FRONT_OR_REORDER = ("reverse", "rev", "remove", "insert", "swap_remove", "sort", "sort_by", "sort_unstable", "sort_by_key", "rotate_left", "rotate_right", "drain", "split_off", "swap", "retain", "dedup", "truncate")
@@ -34,6 +35,7 @@ def run(ck, progs):
         ck.guard("C10-c DECISION empty file", lambda: c10c(ck, prog))
         ck.guard("C10-d DECISION kind mismatch", lambda: c10d(ck, prog))
         ck.guard("C10-e TABLE part headers", lambda: c10e(ck, prog))
+        ck.guard("C10-f ORDER per-part header state", lambda: c10f(ck, prog))
     ck.config = None
 
 
@@ -321,6 +323,7 @@ def file_count(prog, f, bb):
 def c10e(ck, prog):
     R = "C10-e TABLE part headers"
     parse = prog.one(MP + r"Multipart::<'de>::parse$")
+    parse = prog.inlined(parse, 2, r"read_kebab$|read_quoted_by$")      # the header loop may be a helper returning (name, filename, mimetype)
     ci = [(parse.const_args(c) + [None, None])[1] for c in parse.calls() if c.name == "eq_ignore_ascii_case"]
     names = sorted((a or {}).get("s") or "" for a in ci)
     ok = names == ["Content-Disposition", "Content-Type"]
@@ -338,3 +341,66 @@ def c10e(ck, prog):
     one = [c for c in parse.calls() if c.name == "consume_oneof"]
     ok = len(one) == 1
     ck.ob(R, "after-delimiter", ok, parse.loc(None), "" if ok else "after a delimiter the parser does not choose between CRLF (another part) and `--` (end)", how="consume_oneof([CRLF, \"--\"])", nontrivial=False)
+
+
+def c10f(ck, prog):
+    """`each part decodes to exactly its own name, filename and media type`: the values read from a part's headers are state
+    of that part. The variables that feed Part::File / Part::Text must start fresh in every iteration of the part loop: all
+    their definitions sit inside the loop body, or they are reset there (`mem::take` / `take()` / `replace`)."""
+    R = "C10-f ORDER per-part header state"
+    from .lib.bound import natural_loops
+    parse = prog.one(MP + r"Multipart::<'de>::parse$")
+    f = prog.inlined(parse, 2, r"read_kebab$|eq_ignore_ascii_case$")      # the header loop may be a helper returning the triple
+    loops = natural_loops(f)
+    n = 0
+    for bi in sorted(f.live_blocks()):
+        for st in f.blocks[bi]["st"]:
+            if not (st["k"] == "=" and st["r"][0] == "agg" and st["r"][1].get("k") == "adt" and re.search(r"serde_multipart::\w+::(_::)?File$|::Part$", st["r"][1].get("adt", ""))):
+                continue
+            inner = [h for h, body in loops.items() if bi in body]
+            if not inner:
+                continue
+            h = max(inner, key=lambda x: len(loops[x]))      # the part loop: the outermost loop around the construction
+            body = loops[h]
+            fields = st["r"][1].get("fields") or []
+            for i, op in enumerate(st["r"][2]):
+                fname = fields[i] if i < len(fields) else str(i)
+                if fname not in ("name", "filename", "mimetype") or op[0] not in ("c", "m"):
+                    continue
+                ost = f.origin(op)
+                if not (ost and ost[-1][0] == "multi" and all(pr[0] == "d" for pr in ost[-1][2])):
+                    # a value computed in this iteration (the result of a call made in the loop body, e.g. a header-parsing helper)
+                    if ost and ost[-1][0] == "call" and ost[-1][1].bb in body:
+                        n += 1
+                        ck.ob(R, "%s:fresh-per-part" % fname, True, f.loc(st.get("sp")), how="`%s` is the result of a call made in this iteration of the part loop" % fname)
+                    continue
+                l = ost[-1][1]
+                n += 1
+                defs = [d for d in f.defs().get(l, []) if not f.is_cleanup(d[0]) and not (d[2] == "assign" and d[3]["p"][1])]
+                outside = [d for d in defs if d[0] not in body]
+                resets = [c for c in f.calls() if c.bb in body and c.name in ("take", "replace", "swap") and any(a[0] in ("c", "m") and (f.origin(a) or [(None,)])[-1][0] != "const" and _refers_to(f, a, l) for a in c.args)]
+                ok = not outside or bool(resets)
+                ck.ob(R, "%s:fresh-per-part" % fname, ok, f.loc(st.get("sp")),
+                      "" if ok else "the `%s` handed to a part is a variable that lives across iterations of the part loop (defined before the loop, never reset in it): a part that does not send the header "
+                      "gets the value of an earlier part (`Content-Type` is optional: a file without one would carry the previous part's media type)" % fname,
+                      how="`%s` is defined inside the part loop%s" % (fname, " / reset there" if resets else ""))
+    ck.floor(R, "header variables feeding the parts", n, 1)
+
+
+def _refers_to(f, op, local):
+    """is the operand a reference to (a projection of) the local?"""
+    pl = op[1]
+    for _ in range(4):
+        if pl[0] == local:
+            return True
+        sd = f.single_def(pl[0])
+        if sd is None or sd[2] != "assign":
+            return False
+        r = sd[3]["r"]
+        if r[0] == "ref":
+            pl = r[2]
+        elif r[0] == "use" and r[1][0] in ("c", "m"):
+            pl = r[1][1]
+        else:
+            return False
+    return pl[0] == local
